@@ -2,6 +2,7 @@ package props
 
 import (
 	"fmt"
+	"sync"
 	"testing"
 
 	"pgregory.net/rapid"
@@ -23,6 +24,30 @@ func c12Check(c *hist.Case, r *evid.Rec) []evid.Disc {
 	firstSeen := map[int]bool{}
 	lastFirst := map[string]int{} // stream -> highest tag whose first transmission was seen
 	heldTogether := false
+	// The open findings of this property are about messages created within the same second (the in-flight store orders
+	// by creation second only). Two messages whose publish steps are separated by a full wall-clock second are ordered
+	// by the broker's own rule, so a swap between them is a different defect and gets its own signature.
+	pubAt := map[int]int{}
+	for _, s := range run.Steps {
+		if (s.A.Kind == "publish" || s.A.Kind == "burst") && s.Tag > 0 {
+			pubAt[s.Tag] = s.I
+		}
+	}
+	apart := func(earlier, later int) string {
+		a, aok := pubAt[earlier]
+		b, bok := pubAt[later]
+		if !aok || !bok || a >= b || a+1 >= len(run.Steps) {
+			return ""
+		}
+		endA, startB := run.Steps[a+1].Now, run.Steps[b].Now
+		if endA >= startB {
+			return ""
+		}
+		if uint16(startB) < uint16(endA) {
+			return "-created-seconds-apart-across-a-uint16-wrap-of-the-clock"
+		}
+		return "-although-created-in-different-seconds"
+	}
 	for _, s := range run.Steps {
 		batch := map[string][]int{} // resend batch right after a CONNACK with session present
 		for _, o := range s.Obs {
@@ -51,6 +76,7 @@ func c12Check(c *hist.Case, r *evid.Rec) []evid.Disc {
 					} else if s.A.Kind == "ack" || s.A.Kind == "drain" {
 						sig = "C12-held-back-messages-released-out-of-order"
 					}
+					sig += apart(tag, prev)
 					ds = append(ds, evid.D(sig, "step %d: on stream %s the first transmission of m%d arrives after that of m%d, which was published later", s.I, stream, tag, prev))
 				} else {
 					lastFirst[stream] = tag
@@ -63,7 +89,7 @@ func c12Check(c *hist.Case, r *evid.Rec) []evid.Disc {
 		for stream, tags := range batch {
 			for i := 1; i < len(tags); i++ {
 				if tags[i] < tags[i-1] {
-					ds = append(ds, evid.D("C12-resent-out-of-order", "step %d: after the reconnect stream %s is resent in the order %v", s.I, stream, tags))
+					ds = append(ds, evid.D("C12-resent-out-of-order"+apart(tags[i], tags[i-1]), "step %d: after the reconnect stream %s is resent in the order %v", s.I, stream, tags))
 					break
 				}
 			}
@@ -122,11 +148,72 @@ func c12Gen(rt *rapid.T) *hist.Case {
 	return c
 }
 
+// c12Aged: fixed cases in which real time passes between the publishes (1.1 s each), so that the broker's own ordering
+// rule (creation second) decides; the broker's packet identifier cursor for the subscriber is moved close to the
+// wrap-around first, and the messages are queued while the subscriber is offline or held back behind its window.
+func c12Aged() []*hist.Case {
+	var out []*hist.Case
+	exp := uint32(300)
+	one := uint16(1)
+	for _, v := range []struct {
+		ver     byte
+		cursor  int64
+		offline bool
+	}{{4, 65533, true}, {5, 65534, true}, {5, 65533, false}} {
+		c := &hist.Case{}
+		c.Cfg.ClientPIDBase = 1000
+		con := hist.Action{Kind: "connect", Client: 0, Version: v.ver, Clean: false}
+		if v.ver == 5 {
+			con.Expiry = &exp
+			if !v.offline {
+				con.RecvMax = &one
+			}
+		}
+		c.Actions = append(c.Actions, con,
+			hist.Action{Kind: "subscribe", Client: 0, Filters: []refmqtt.Filter{{Filter: "t/#", QoS: 1}}},
+			hist.Action{Kind: "connect", Client: 1, Version: 4, Clean: true, AutoAck: true},
+			hist.Action{Kind: "pidcursor", Client: 0, Offset: v.cursor})
+		if v.offline {
+			c.Actions = append(c.Actions, hist.Action{Kind: "drop", Client: 0})
+		}
+		for i := 0; i < 4; i++ {
+			c.Actions = append(c.Actions, hist.Action{Kind: "publish", Client: 1, Topic: "t/a", QoS: 1}, hist.Action{Kind: "sleep", Offset: 1100})
+		}
+		if v.offline {
+			c.Actions = append(c.Actions, con)
+		}
+		c.Actions = append(c.Actions, hist.Action{Kind: "drain", Client: 0})
+		out = append(out, c)
+	}
+	return out
+}
+
 func TestC12(t *testing.T) {
-	r := evid.New("C12", "rapid: one publisher sends 3-40 tagged messages to two topics at a fixed QoS per topic; the subscriber (persistent session, Receive Maximum 1, 2 or absent, v3.1.1/v5) acknowledges with generated timing, receives bursts of mixed small and large (up to 3000 byte) messages with client write buffers of 16..2048 bytes, is dropped and reconnects with session present in the middle, and finally reconnects and acknowledges everything; all publishes of a case fall within the same second or two, which is the situation in which ordering by creation second says nothing; oracle: per (topic, delivered QoS) the first transmissions arrive in publish order, and the batch resent after a CONNACK with session present is in publish order; non-trivial = >=2 messages of one stream were held back or resent together; distinct by history")
+	r := evid.New("C12", "rapid: one publisher sends 3-40 tagged messages to two topics at a fixed QoS per topic; the subscriber (persistent session, Receive Maximum 1, 2 or absent, v3.1.1/v5) acknowledges with generated timing, receives bursts of mixed small and large (up to 3000 byte) messages with client write buffers of 16..2048 bytes, is dropped and reconnects with session present in the middle, and finally reconnects and acknowledges everything; all publishes of a generated case fall within the same second or two, which is the situation in which ordering by creation second says nothing; three fixed cases let 1.1 s of real time pass between publishes with the subscriber's packet identifier cursor just below the wrap-around (offline queue and flow-control window); oracle: per (topic, delivered QoS) the first transmissions arrive in publish order, and the batch resent after a CONNACK with session present is in publish order; non-trivial = >=2 messages of one stream were held back or resent together; distinct by history")
 	defer r.Finish(t)
 	if evid.ReplayMode() {
 		evid.Replay(t, r, replayPath(), c12Check)
+		return
+	}
+	var wg sync.WaitGroup
+	var mu sync.Mutex
+	for _, c := range c12Aged() {
+		wg.Add(1)
+		go func(c *hist.Case) {
+			defer wg.Done()
+			ds := c12Check(c, r)
+			mu.Lock()
+			defer mu.Unlock()
+			r.Eval()
+			r.Label("aged-case-with-identifier-wrap")
+			if un := r.Explain(ds); len(un) > 0 {
+				r.Fail(c, un)
+				t.Errorf("C12 aged case: [%s] %s", un[0].Sig, un[0].Msg)
+			}
+		}(c)
+	}
+	wg.Wait()
+	if t.Failed() {
 		return
 	}
 	evid.Run(t, r, func(rt *rapid.T) *hist.Case {
